@@ -14,6 +14,9 @@ from .base import AutoKwargsDecorator, ExpressionDecorator
 
 _LOGGER = logging.getLogger(__name__)
 
+# hass.data key: webhook id -> decorators sharing the one Home Assistant registration of that id
+DATA_LISTENERS = "pyscript.webhook_trigger"
+
 
 class WebhookTriggerDecorator(TriggerDecorator, ExpressionDecorator, AutoKwargsDecorator):
     """Implementation for @webhook_trigger."""
@@ -63,22 +66,40 @@ class WebhookTriggerDecorator(TriggerDecorator, ExpressionDecorator, AutoKwargsD
 
         await self.dispatch(DispatchData(func_args))
 
+    @staticmethod
+    async def _shared_handler(hass, webhook_id, request):
+        """Hand a request over to every decorator listening to the webhook id."""
+        for dec in list(hass.data.get(DATA_LISTENERS, {}).get(webhook_id, [])):
+            await dec._handler(hass, webhook_id, request)
+
     async def start(self):
         """Start the webhook trigger."""
         await super().start()
-        webhook.async_register(
-            self.dm.hass,
-            "pyscript",  # DOMAIN
-            "pyscript",  # NAME
-            self.webhook_id,
-            self._handler,
-            local_only=self.local_only,
-            allowed_methods=self.methods,
-        )
+        # Home Assistant accepts one handler per webhook id: all decorators using an id share one registration
+        # (made by the first to start, removed by the last to stop), like Webhook.notify in the legacy subsystem
+        listeners = self.dm.hass.data.setdefault(DATA_LISTENERS, {})
+        if self.webhook_id not in listeners:
+            webhook.async_register(
+                self.dm.hass,
+                "pyscript",  # DOMAIN
+                "pyscript",  # NAME
+                self.webhook_id,
+                self._shared_handler,
+                local_only=self.local_only,
+                allowed_methods=self.methods,
+            )
+            listeners[self.webhook_id] = []
+        listeners[self.webhook_id].append(self)
 
         _LOGGER.debug("webhook trigger %s listening on id %s", self.dm.name, self.webhook_id)
 
     async def stop(self):
         """Stop the webhook trigger."""
         await super().stop()
-        webhook.async_unregister(self.dm.hass, self.webhook_id)
+        listeners = self.dm.hass.data.get(DATA_LISTENERS, {})
+        if self not in listeners.get(self.webhook_id, []):
+            return
+        listeners[self.webhook_id].remove(self)
+        if len(listeners[self.webhook_id]) == 0:
+            del listeners[self.webhook_id]
+            webhook.async_unregister(self.dm.hass, self.webhook_id)
